@@ -260,6 +260,8 @@ def run_regress(ctx: Ctx, prop: str) -> int:
     sub = subject()
     body = _BODIES[prop][0]
     d = os.path.join(runner.VERIF, "regress", prop)
+    if prop in ("C01", "C02", "C03"):
+        d = os.path.join(runner.VERIF, "regress", "values")  # shared saved values
     n = 0
     if not os.path.isdir(d):
         return 0
